@@ -59,6 +59,7 @@ def gen(rng, knobs):
     subs = [["send", json.dumps(["REQ", "all", {"authors": [k.pub for k in evgen.KEYS]}])], ["barrier"]]
     clients.append({"script": subs})
     sent = []
+    good = []
     for ci in range(rng.randint(1, 2)):
         script = [["barrier"]]
         bad = 0       # every refused event doubles the relay's throttle sleep: keep it bounded
@@ -76,8 +77,8 @@ def gen(rng, knobs):
                 ev = h.deletion()
             elif c < 0.55:
                 ev = h.ephemeral()
-            elif c < 0.65 and sent:
-                ev = copy.deepcopy(rng.choice(sent))          # byte-identical resubmission
+            elif c < 0.65 and good:
+                ev = copy.deepcopy(rng.choice(good))          # byte-identical resubmission (of a valid one)
             elif c < 0.75:
                 # extremes of the integer range and long tags (validly signed)
                 m = rng.random()
@@ -118,6 +119,8 @@ def gen(rng, knobs):
                 else:
                     ev["content"] = 5
             sent.append(ev)
+            if c < 0.55:
+                good.append(ev)
             script.append(["send", json.dumps(["EVENT", ev])])
             if rng.random() < 0.15:
                 script.append(["barrier"])
@@ -179,7 +182,7 @@ def run(case, sim):
             ok = mine[0][1]
             res = ok[2] if len(ok) > 2 else None
             reason = ok[3] if len(ok) > 3 and isinstance(ok[3], str) else ""
-            subs.append({"c": c.idx, "ev": ev, "cls": cls, "ok": res, "reason": reason,
+            subs.append({"c": c.idx, "ev": ev, "cls": cls, "ok": res, "reason": reason, "ok_id": ok[1] if len(ok) > 1 else None,
                          "t0": fr["t_deliver"], "t1": hi, "t_ok": mine[0][0]})
     subs.sort(key=lambda s: s["t0"])
     accepted_ids = {s["ev"]["id"] for s in subs if s["ok"] is True and isinstance(s["ev"], dict) and isinstance(s["ev"].get("id"), str)}
@@ -206,7 +209,10 @@ def run(case, sim):
             if stored:
                 continue
             if isinstance(ev.get("kind"), int) and model.is_ephemeral(ev["kind"]):
-                if pushed[(observer.idx, eid)] == 0 and model.authentic(ev)[0]:
+                obs_ready = [f for f in observer.frames if f["t_done"] is not None and f["t_done"] < s["t0"]
+                             and f["text"].startswith('["REQ"')]
+                if pushed[(observer.idx, eid)] == 0 and model.authentic(ev)[0] and obs_ready \
+                        and w.final.get("alive", {}).get(observer.idx):
                     viol.append({"cls": "ephemeral-not-broadcast", "sig": "ephemeral-not-broadcast|" + backend,
                                  "detail": {"event": oracles.brief(ev)}})
                 continue
@@ -257,7 +263,7 @@ def run(case, sim):
                                  "detail": {"event": str(ev)[:200], "reason": s["reason"]}})
             if dup and isinstance(eid, str):
                 earlier = any(o is not s and o["t0"] < s["t1"] and isinstance(o["ev"], dict)
-                              and o["ev"].get("id") == eid for o in subs)
+                              and (o["ev"].get("id") == eid or (o["ok"] is True and o.get("ok_id") == eid)) for o in subs)
                 if not earlier:
                     viol.append({"cls": "duplicate-without-original", "sig": "duplicate-without-original|" + backend,
                                  "detail": {"event": str(ev)[:200]}})
